@@ -274,7 +274,49 @@ let s_router g obs =
   (model, if obs = spec then "ok" else "bad:subscriber-did-not-get-exactly-its-events-in-order")
 let s_routerconc _g obs = ("ok", if obs = "ok" then "ok" else "bad:concurrent-unsubscribe-" ^ (List.hd (String.split_on_char ':' obs)))
 
+(* ---- C19: EUI allocator ---- *)
+let s_keygen g obs =
+  let size = getn g "size" and netid = getn g "netid" and interval = getn g "interval" in
+  let prefix64 = n_of_hex (g "prefix" ^ "000000") in
+  let pos = geti g "pos" in
+  let evs = if g "evs" = "" then [] else String.split_on_char ',' (g "evs") in
+  let st = ref { a_dur = (if pos > 1 then Some (n_of_int pos) else None); a_blk = [] } in
+  let pad h = String.make (max 0 (16 - String.length h)) '0' ^ h in
+  let req () =
+    let (s', o) = astep interval !st AReq in st := s';
+    match o with
+    | Some id -> pad (hex_of_n (eui_of size prefix64 netid id)) ^ ":" ^ (if exhausted id then "1" else "0")
+    | None -> "none" in
+  let quiet ev = let (s', _) = astep interval !st ev in st := s' in
+  let model = String.concat "," (List.map (fun e ->
+      match e.[0] with
+      | 'R' -> req ()
+      | 'K' -> let k = int_of_string (String.sub e 1 (String.length e - 1)) in
+        String.concat "+" (List.sort compare (List.init k (fun _ -> req ())))
+      | 'X' -> quiet ARestart; "-"
+      | 'J' -> quiet (AForeign (n_of_int (int_of_string (String.sub e 1 (String.length e - 1))))); "-"
+      | 'B' -> quiet ARestart; quiet ACrashBeforeCommit; "hang"
+      | 'A' -> quiet ARestart; quiet ACrashAfterCommit; "hang"
+      | _ -> failwith "ev") evs) in
+  (* oracle on the observation alone *)
+  let sz = int_of_n size in
+  let free = 64 - sz in
+  let issued = List.concat_map (fun o -> if o = "-" || o = "hang" then [] else
+      List.filter_map (fun r -> match String.split_on_char ':' r with
+          | [e; "0"] when String.length e = 16 -> Some e | ["returned"; e; "0"] -> Some e | _ -> None)
+        (String.split_on_char '+' o)) (String.split_on_char ',' obs) in
+  let pfx = pad (hex_of_n prefix64) in
+  let nyb = sz / 4 in
+  let low e = int_of_string ("0x" ^ String.sub e 6 10) land ((1 lsl free) - 1) in
+  let verdict =
+    if List.exists (fun e -> String.sub e 0 nyb <> String.sub pfx 0 nyb) issued then "bad:eui-without-prefix"
+    else if List.exists (fun e -> (low e) lsr 25 <> int_of_n netid) issued then "bad:eui-without-netid"
+    else if List.length (List.sort_uniq compare issued) <> List.length issued then "bad:eui-issued-twice"
+    else "ok" in
+  (model, verdict)
+
 let register_all register =
+  register "keygen" s_keygen;
   register "router" s_router;
   register "routerconc" s_routerconc;
   List.iter (fun n -> register ("gw" ^ n) Gwsuite.s_gw) ["C11"; "C15"; "C16"; "C17"];
